@@ -2,6 +2,7 @@ import Lean.Data.Json
 import ZorgVerif.Gen.Consts
 import ZorgVerif.Model.Zid
 import ZorgVerif.Model.Groups
+import ZorgVerif.Model.Rename
 /-! Line protocol: one JSON request per line on stdin, one JSON answer per line on stdout. -/
 open Lean ZorgVerif
 
@@ -78,6 +79,22 @@ def handleGroups (op : String) (j : Json) : Except String Json := do
     | .error (.format _) => pure (Json.mkObj [("err", "format")])
   | _ => throw s!"unknown op {op}"
 
+def handleRename (op : String) (j : Json) : Except String Json := do
+  match op with
+  | "rename.text" =>
+    -- src/dst: names as given on the command line; txt: file content
+    let src ← strOf j "src"
+    let dst ← strOf j "dst"
+    let txt ← strOf j "txt"
+    let a := Rename.simplify src.toList
+    let b := Rename.simplify dst.toList
+    let needs := Rename.needsRewrite a txt.toList
+    let out := if needs then Rename.renameText a b txt.toList else txt.toList
+    pure (Json.mkObj [("out", jstr out), ("needs", needs), ("spec", jstr (Rename.spec a b 0 txt.toList)),
+      ("a", jstr a), ("b", jstr b), ("srcFile", jstr (Rename.withExt src.toList)), ("dstFile", jstr (Rename.withExt dst.toList)),
+      ("safe", Rename.linkSafe a && Rename.linkSafe b)])
+  | _ => throw s!"unknown op {op}"
+
 def handle (line : String) : Json :=
   match Json.parse line with
   | .error e => Json.mkObj [("driver_error", s!"parse: {e}")]
@@ -88,6 +105,7 @@ def handle (line : String) : Json :=
       let r :=
         if op.startsWith "zid." then handleZid op j
         else if op.startsWith "groups." then handleGroups op j
+        else if op.startsWith "rename." then handleRename op j
         else .error s!"unknown op {op}"
       match r with
       | .ok v => v
